@@ -370,6 +370,27 @@ loop:
 	o.lc.ShutdownInitiated(nil)
 	o.sub.Close()
 
+	// Stop the operations still in flight and wait for all runners to complete.
+	// A reservation or a bid that completes after the loop has exited is taken
+	// into account here so that it is released below like any other.
+	cancel()
+	if groupch != nil {
+		<-groupch
+	}
+	if pricech != nil {
+		<-pricech
+	}
+	if clusterch != nil {
+		if result := <-clusterch; result.Error() == nil {
+			reservation = result.Value().(ctypes.Reservation)
+		}
+	}
+	if bidch != nil {
+		if result := <-bidch; result.Error() == nil {
+			o.bidPlaced = true
+		}
+	}
+
 	// cancel reservation
 	if !won {
 		if reservation != nil {
@@ -384,7 +405,8 @@ loop:
 
 		if o.bidPlaced {
 			o.log.Debug("closing bid")
-			err := o.session.Client().Tx().Broadcast(ctx, &mtypes.MsgCloseBid{
+			// ctx is cancelled by now; the close must still be submitted
+			err := o.session.Client().Tx().Broadcast(context.Background(), &mtypes.MsgCloseBid{
 				BidID: mtypes.MakeBidID(o.orderID, o.session.Provider().Address()),
 			})
 			if err != nil {
@@ -394,21 +416,6 @@ loop:
 				bidCounter.WithLabelValues("close", metricsutils.SuccessLabel).Inc()
 			}
 		}
-	}
-	cancel()
-
-	// Wait for all runners to complete.
-	if groupch != nil {
-		<-groupch
-	}
-	if clusterch != nil {
-		<-clusterch
-	}
-	if bidch != nil {
-		<-bidch
-	}
-	if pricech != nil {
-		<-pricech
 	}
 	o.vt("done", "res", reservation != nil, "won", won, "placed", o.bidPlaced)
 }
